@@ -1,62 +1,6 @@
 import RB.Util.Driver
-import RB.Model.Settings
+import RB.Util.SettingsJson
 open Lean RB.Drv RB.Settings
-
-def parseRaw (j : Json) : Option Raw :=
-  if j.isNull then some .absent else
-  match getNat? j "p", getNat? j "m" with
-  | some n, none => some (.plain n)
-  | none, some n => some (.marked n)
-  | _, _ => none
-
-def rawField (j : Json) (k : String) : Option Raw :=
-  match j.getObjVal? k with
-  | .ok v => parseRaw v
-  | .error _ => some .absent
-
-/-- optional Nat code: missing key or null = not defined at this level -/
-def optField (j : Json) (k : String) : Option (Option Nat) :=
-  match j.getObjVal? k with
-  | .ok v => if v.isNull then some none else (asNat? v).map some
-  | .error _ => some none
-
-def parseLevel (j : Json) : Option Level := do
-  pure { invocations := ← rawField j "invocations", iterations := ← rawField j "iterations",
-         warmup := ← rawField j "warmup",
-         minIterationTime := ← optField j "min_iteration_time",
-         maxInvocationTime := ← optField j "max_invocation_time",
-         ignoreTimeouts := ← optField j "ignore_timeouts",
-         retriesAfterFailure := ← optField j "retries_after_failure",
-         executeExclusively := ← optField j "execute_exclusively",
-         env := ← optField j "env",
-         inputSizes := ← optField j "input_sizes", cores := ← optField j "cores",
-         variableValues := ← optField j "variable_values", tags := ← optField j "tags" }
-
-def mkDetails (dl : Level) : Details :=
-  { invocations := dl.invocations
-    iterations := dl.iterations
-    warmup := dl.warmup
-    minIterationTime := dl.minIterationTime
-    maxInvocationTime := dl.maxInvocationTime
-    ignoreTimeouts := dl.ignoreTimeouts
-    retriesAfterFailure := dl.retriesAfterFailure
-    executeExclusively := dl.executeExclusively
-    env := dl.env }
-
-def mkVars (dl : Level) : Vars :=
-  { inputSizes := dl.inputSizes
-    cores := dl.cores
-    variableValues := dl.variableValues
-    tags := dl.tags }
-
-def optJson : Option Nat → Json
-  | some n => Json.num n
-  | none => Json.null
-
-def rawJson : Raw → Json
-  | .absent => Json.null
-  | .plain n => Json.mkObj [("p", Json.num n)]
-  | .marked n => Json.mkObj [("m", Json.num n)]
 
 def handle (op : String) (j : Json) : Option Json :=
   match op with
